@@ -500,7 +500,9 @@ class Request(request.Request):
                 #   effectively what we are doing since we only ever
                 #   access this field when setting self._cached_access_route
                 client, __ = self.scope['client']
-            except KeyError:
+            except (KeyError, TypeError):
+                # NOTE: per the ASGI spec the field may also be present
+                #   with the value None (e.g., for a Unix socket).
                 # NOTE(kgriffs): Default to localhost so that app logic does
                 #   note have to special-case the handling of a missing
                 #   client field in the connection scope. This should be
